@@ -565,9 +565,17 @@ func (l lty) asLen() lty { return lty{k: kInt, w: 64} }
 func (t *tr) convert(s string, from, to lty) string {
 	switch {
 	case from.k == kInt && to.k == kInt:
-		return s
+		if to.w >= from.w {
+			return s
+		}
+		// a NARROWING signed conversion (int64 -> int32, …) wraps: it is never the identity
+		return fmt.Sprintf("(GoSem.toS %s %s)", pow2(to.w), s)
 	case from.k == kNat && to.k == kInt:
-		return "(Int.ofNat " + s + ")"
+		if to.w > from.w {
+			return "(Int.ofNat " + s + ")"
+		}
+		// same or smaller width (uint64 -> int64, uint32 -> int32, …): values from 2^(w-1) up turn negative
+		return fmt.Sprintf("(GoSem.toS %s (Int.ofNat %s))", pow2(to.w), s)
 	case from.k == kInt && to.k == kNat:
 		return fmt.Sprintf("(GoSem.toU %s %s)", pow2(to.w), s)
 	case from.k == kNat && to.k == kNat:
